@@ -180,12 +180,34 @@ func SelectorDMT(s SelAST, links []datamodel.Link) datamodel.Node {
 	panic("harness: selector type " + s.T)
 }
 
+// pathString renders a specification path unambiguously (empty segments stay visible).
 func pathString(p [][]int) string {
 	segs := make([]string, len(p))
 	for i, s := range p {
 		segs[i] = string(model.Bytes(s))
 	}
+	return canonPath(segs)
+}
+
+func canonPath(segs []string) string {
+	for _, s := range segs {
+		if s == "" || strings.Contains(s, "/") {
+			q := make([]string, len(segs))
+			for i, x := range segs {
+				q[i] = fmt.Sprintf("%q", x)
+			}
+			return strings.Join(q, "/")
+		}
+	}
 	return strings.Join(segs, "/")
+}
+
+func canonOf(p datamodel.Path) string {
+	var segs []string
+	for _, s := range p.Segments() {
+		segs = append(segs, s.String())
+	}
+	return canonPath(segs)
 }
 
 func pathOf(p [][]int) datamodel.Path {
@@ -201,6 +223,7 @@ type observedVisit struct {
 	reason string
 	node   datamodel.Node
 	prog   traversal.Progress
+	pstr   string // Path.String() as it read during the visit
 }
 
 // WalkRun is one real walk.
@@ -244,7 +267,7 @@ func (gr *Graph) run(sel selector.Selector, cfg WalkCfg, matchingOnly bool) Walk
 	r.panic = model.Safe(func() {
 		if matchingOnly {
 			r.err = prog.WalkMatching(gr.Root, sel, func(p traversal.Progress, n datamodel.Node) error {
-				r.visits = append(r.visits, observedVisit{p.Path.String(), "m", n, p})
+				r.visits = append(r.visits, observedVisit{canonOf(p.Path), "m", n, p, p.Path.String()})
 				return nil
 			})
 		} else {
@@ -253,7 +276,7 @@ func (gr *Graph) run(sel selector.Selector, cfg WalkCfg, matchingOnly bool) Walk
 				if vr == traversal.VisitReason_SelectionMatch {
 					reason = "m"
 				}
-				r.visits = append(r.visits, observedVisit{p.Path.String(), reason, n, p})
+				r.visits = append(r.visits, observedVisit{canonOf(p.Path), reason, n, p, p.Path.String()})
 				return nil
 			})
 		}
@@ -371,10 +394,10 @@ func ReplayWalk(cs *WalkCase, o WalkOpts) (*run.Finding, int) {
 				}
 				segs = append(segs, string(b))
 			}
-			wantPath = strings.Join(segs, "/")
+			wantPath = canonPath(segs)
 		}
-		if be.Path.String() != wantPath {
-			return fail(target, "budget-error-path", "different-path", fmt.Sprintf("spec %q, implementation %q", wantPath, be.Path.String())), checks
+		if canonOf(be.Path) != wantPath {
+			return fail(target, "budget-error-path", "different-path", fmt.Sprintf("spec %q, implementation %q", wantPath, canonOf(be.Path))), checks
 		}
 		checks++
 	}
@@ -455,8 +478,8 @@ func checkPaths(gr *Graph, cs *WalkCase, r WalkRun, checks *int) *run.Finding {
 	}}
 	for i, v := range r.visits {
 		// the retained Path object must still say what it said during the visit
-		if v.prog.Path.String() != v.path {
-			return fail("Progress.Path", "path-retained", "changed-after-visit", fmt.Sprintf("visit #%d: path was %q during the visit, reads %q after the walk", i, v.path, v.prog.Path.String()))
+		if v.prog.Path.String() != v.pstr {
+			return fail("Progress.Path", "path-retained", "changed-after-visit", fmt.Sprintf("visit #%d: path was %q during the visit, reads %q after the walk", i, v.pstr, v.prog.Path.String()))
 		}
 		if v.path != pathString(cs.Visits[i].Path) {
 			continue
@@ -507,8 +530,10 @@ func checkPaths(gr *Graph, cs *WalkCase, r WalkRun, checks *int) *run.Finding {
 			return fail("LookupBySegment", "stepwise=visited", "different-node", fmt.Sprintf("path %q: stepwise lookup gives %v, visited %v", v.path, sv, want))
 		}
 		// string round trip
-		if rp := datamodel.ParsePath(v.prog.Path.String()); rp.String() != v.path {
-			return fail("datamodel.ParsePath", "ParsePath(String(p))=p", "different-path", fmt.Sprintf("%q -> %q", v.path, rp.String()))
+		if !strings.Contains(v.path, "\"") { // no segment is empty or contains a slash
+			if rp := datamodel.ParsePath(v.prog.Path.String()); canonOf(rp) != v.path {
+				return fail("datamodel.ParsePath", "ParsePath(String(p))=p", "different-path", fmt.Sprintf("%q -> %q", v.path, canonOf(rp)))
+			}
 		}
 		*checks += 5
 	}
